@@ -794,3 +794,53 @@ func (e *Engine) DescribeAlt(a *Alt) string {
 	}
 	return s
 }
+
+// Frame is a function instance on an inlined call tree.
+type Frame struct {
+	Fn  *ssa.Function
+	Ctx *Ctx
+}
+
+// Walk visits every instruction in every block that is reachable (under the
+// current assumptions) in the call tree below fn, descending into repository
+// callees (including atoms when descendAtoms is set). visit is called once per
+// (instruction, frame).
+func (e *Engine) Walk(fn *ssa.Function, descendAtoms bool, visit func(in ssa.Instruction, fr Frame)) {
+	seen := map[graphKey]bool{}
+	var walk func(fn *ssa.Function, ctx *Ctx)
+	walk = func(fn *ssa.Function, ctx *Ctx) {
+		k := graphKey{fn, ctx}
+		if seen[k] || ctx.depth > 40 {
+			return
+		}
+		seen[k] = true
+		g := e.GraphOf(fn, ctx)
+		for _, b := range fn.Blocks {
+			if !g.Reach[b.Index] {
+				continue
+			}
+			for i, in := range b.Instrs {
+				visit(in, Frame{fn, ctx})
+				if c, ok := in.(ssa.CallInstruction); ok {
+					cal := c.Common().StaticCallee()
+					if cal != nil && e.P.InRepo(cal) && (descendAtoms || !e.Atoms[cal]) && e.getterField(cal) == "" {
+						walk(cal, e.Enter(ctx, c, cal))
+					}
+					if mc, ok := c.Common().Value.(*ssa.MakeClosure); ok {
+						if f, ok := mc.Fn.(*ssa.Function); ok && e.P.InRepo(f) {
+							walk(f, e.Enter(ctx, c, f))
+						}
+					}
+				}
+				if g.CutAt[b.Index] == i {
+					break
+				}
+			}
+		}
+		for _, a := range fn.AnonFuncs {
+			// closures passed as values (e.g. to library functions) may run
+			walk(a, e.Enter(ctx, nil, a))
+		}
+	}
+	walk(fn, e.Root(fn))
+}
